@@ -688,6 +688,25 @@ func genGeneral(r *vk.Run, ds int) error {
 				r.Finding(fmt.Sprintf("%s: seed=%d general-dataset=%d query=[%s] => %s ; the table right after tx %d was %v ; script=[%s]",
 					kind, r.Seed, ds, hq, clip(resText(rh), 600), s.tx, clip(strings.Join(s.rows, " "), 600), script))
 			}
+			// historical COUNT(*) with a predicate on the scanned index's own columns (the key-only count
+			// path) against the historical rows the same predicate selects; primary index only (reads of
+			// the past through a secondary index are a listed finding)
+			if strings.Join(ix, ",") == strings.Join(g1.pk, ",") {
+				for k := 0; k < 3; k++ {
+					c := g1.col(ix[rng.Intn(len(ix))])
+					pred := fmt.Sprintf("%s %s %s", c.name, pick(rng, cmpOps), genLit(rng, c.typ))
+					hrq := fmt.Sprintf("SELECT %s FROM g1 BEFORE TX %d%s WHERE %s", cols1, s.tx+1, useClause(ix), pred)
+					hcq := fmt.Sprintf("SELECT COUNT(*) FROM g1 BEFORE TX %d%s WHERE %s", s.tx+1, useClause(ix), pred)
+					rr, rc := v.query(nil, hrq), v.query(nil, hcq)
+					r.Stats["general/historical-count"]++
+					if rr.err != nil || rc.err != nil {
+						r.Finding(fmt.Sprintf("twin-error: twin=historical-count seed=%d general-dataset=%d query=[%s] err=%v / query=[%s] err=%v script=[%s]", r.Seed, ds, hrq, rr.err, hcq, rc.err, script))
+					} else if len(rc.rows) != 1 || len(rc.rows[0]) != 1 || rc.rows[0][0] != int64(len(rr.rows)) {
+						r.Finding(fmt.Sprintf("twin-divergence: twin=historical-count seed=%d general-dataset=%d query=[%s] => %s but [%s] => %s ; script=[%s]",
+							r.Seed, ds, hcq, clip(resText(rc), 200), hrq, clip(resText(rr), 600), script))
+					}
+				}
+			}
 		}
 	}
 	// state 3: after close + reopen
